@@ -1,135 +1,237 @@
 ------------------------------ MODULE ParallelExec ------------------------------
 (***************************************************************************)
-(* CallableParallelExecution.execute (gemseo/core/parallel_execution/      *)
-(* callable_parallel_execution.py).                                        *)
+(* CallableParallelExecution (gemseo/core/parallel_execution/              *)
+(* callable_parallel_execution.py): an executor OBJECT on which `execute`  *)
+(* is called NExec times in a row.                                         *)
 (*                                                                         *)
 (* One action per observable step of the code:                             *)
-(*   Main:   Fill (one queue_in.put per task, in index order)              *)
+(*   Main:   Start (a new call of execute: number of tasks, failing tasks, *)
+(*                  queues, worker threads/processes)                      *)
+(*           Fill (one queue_in.put per task, in index order)              *)
 (*           Collect (queue_out.get, place BY INDEX, callbacks, count)     *)
 (*           Sentinels (one None per worker), Join, Raise/Return           *)
 (*   Worker: Take (queue_in.get), Run (the callable is entered),           *)
 (*           Finish (queue_out.put of the value or of the exception)       *)
 (* The workers are started before the queue is filled (as in the code), so *)
-(* Take interleaves with Fill.  fails / reraise are chosen in Init: TLC    *)
-(* covers every subset of failing tasks and every subset of those whose    *)
-(* exception type is in exceptions_to_re_raise.                            *)
+(* Take interleaves with Fill.  The number of tasks, fails and reraise are *)
+(* chosen at each Start: TLC covers every number of tasks in TaskCounts,   *)
+(* every subset of failing tasks and every subset of those whose exception *)
+(* type is in exceptions_to_re_raise, for every execution, after EVERY     *)
+(* terminal state of the previous one (normal end, early stop by a         *)
+(* re-raised exception with results still in flight or left in queue_out). *)
+(*                                                                         *)
+(* What persists from one execution to the next is part of the state:      *)
+(* PersistQueues = FALSE is the code (the queues are created by `execute`);*)
+(* PersistQueues = TRUE is the design "the object keeps its queues", which *)
+(* TLC refutes (ExecutionsIndependent, Positional, CallbackMatches).       *)
 (***************************************************************************)
 EXTENDS Naturals, Sequences, FiniteSets, TLC
-CONSTANTS NTasks, NWorkers
-Tasks == 1..NTasks
-NW == IF NTasks < NWorkers THEN NTasks ELSE NWorkers    \* min(n_tasks, n_processes)
-Workers == 1..NW
+CONSTANTS TaskCounts,     \* the possible numbers of tasks of one execution (a set of naturals)
+          NWorkers,       \* n_processes of the executor object
+          NExec,          \* number of consecutive executions on the same object
+          PersistQueues
+Workers == 1..NWorkers
 None == 0
-Val(i) == 100 + i
-NoItem == [idx |-> 0, ok |-> TRUE, val |-> None]
+Val(k, i) == 100 * k + i              \* the result of task i of execution k
+NoItem == [idx |-> 0, ok |-> TRUE, val |-> None, rr |-> FALSE]
 
 (* --fair algorithm ParallelExec
 variables
-  fails \in SUBSET Tasks,
-  reraise \in SUBSET fails,
+  e = 0,                     \* index of the current execution on this object
+  nT = 0,                    \* its number of tasks
+  fails = {}, reraise = {},
   queueIn = <<>>, queueOut = <<>>,
-  ordered = [i \in Tasks |-> None],
+  ordered = <<>>,
   cbLog = <<>>, nOut = 0, stop = FALSE, last = NoItem,
   raised = FALSE, returned = FALSE,
+  exited = [x \in Workers |-> FALSE],   \* worker x of the current execution received its sentinel
+  closed = FALSE,
   finishLog = <<>>,          \* observation: order of the queue_out.put events
   startedAt = <<>>,          \* observation: set of running tasks just before each Finish
+  carried = <<>>,            \* observation: what queue_out held when the execution started
+  hist = <<>>,               \* observation: one record per finished execution
   cur = [x \in Workers |-> 0];  \* the task each worker holds (0: none / sentinel)
+
+define
+  NW == IF nT < NWorkers THEN nT ELSE NWorkers    \* min(n_tasks, n_processes)
+  Active == 1..NW
+end define;
 
 process Main = 0
 variables t = 1, w = 1;
 begin
-Fill:
-  while t <= NTasks do
-    queueIn := Append(queueIn, t);
-    t := t + 1;
-  end while;
-Collect:
-  while nOut # NTasks /\ ~stop do
-    await queueOut # <<>>;
-    last := Head(queueOut);
-    queueOut := Tail(queueOut);
-    if last.ok then
-      ordered[last.idx] := last.val;
-      cbLog := Append(cbLog, <<last.idx, last.val>>);
-    elsif last.idx \in reraise then
-      stop := TRUE;
+Start:
+  while e < NExec do
+    e := e + 1;
+    with n \in TaskCounts, f \in SUBSET (1..n), r \in SUBSET f do
+      nT := n; fails := f; reraise := r;
+      ordered := [i \in 1..n |-> None];
+    end with;
+    cbLog := <<>>; nOut := 0; stop := FALSE; last := NoItem;
+    raised := FALSE; returned := FALSE;
+    finishLog := <<>>; startedAt := <<>>; t := 1; w := 1;
+    exited := [x \in Workers |-> FALSE];   \* new worker threads/processes
+    if ~PersistQueues then
+      queueIn := <<>>; queueOut := <<>>;
     end if;
-    nOut := nOut + 1;
-  end while;
+    carried := queueOut;
+Fill:
+    while t <= nT do
+      queueIn := Append(queueIn, t);
+      t := t + 1;
+    end while;
+Collect:
+    while nOut # nT /\ ~stop do
+      await queueOut # <<>>;
+      last := Head(queueOut);
+      queueOut := Tail(queueOut);
+      if last.ok then
+        ordered[last.idx] := last.val;
+        cbLog := Append(cbLog, <<last.idx, last.val>>);
+      elsif last.rr then
+        stop := TRUE;
+      end if;
+      nOut := nOut + 1;
+    end while;
 Sentinels:
-  while w <= NW do
-    queueIn := Append(queueIn, 0);
-    w := w + 1;
-  end while;
+    while w <= NW do
+      queueIn := Append(queueIn, 0);
+      w := w + 1;
+    end while;
 Join:
-  await \A x \in Workers : pc[x] = "Done";
+    await \A x \in Active : exited[x];
 Raise:
-  if last.idx # 0 /\ ~last.ok /\ last.idx \in reraise then
-    raised := TRUE;
-  else
-    returned := TRUE;
-  end if;
+    if ~last.ok /\ last.rr then
+      raised := TRUE;
+    else
+      returned := TRUE;
+    end if;
+    hist := Append(hist, [n |-> nT, fails |-> fails, reraise |-> reraise, flog |-> finishLog,
+                          started |-> startedAt, ordered |-> ordered, cb |-> cbLog,
+                          raised |-> (~last.ok /\ last.rr), who |-> last.idx,
+                          left |-> Len(queueOut), carried |-> Len(carried)]);
+  end while;
+Close:
+  closed := TRUE;
 end process;
 
 process Worker \in Workers
 begin
 Take:
-  await queueIn # <<>>;
-  cur[self] := Head(queueIn);
-  queueIn := Tail(queueIn);
-  if cur[self] = 0 then goto Done; end if;
+  await closed \/ (queueIn # <<>> /\ self \in Active /\ ~exited[self]);
+  if closed then
+    goto Done;
+  else
+    cur[self] := Head(queueIn);
+    queueIn := Tail(queueIn);
+    if cur[self] = 0 then
+      exited[self] := TRUE;
+      goto Take;
+    end if;
+  end if;
 Run:
   skip;
 Finish:
   startedAt := Append(startedAt, {cur[x] : x \in {y \in Workers : pc[y] = "Finish"}});
   finishLog := Append(finishLog, cur[self]);
   queueOut := Append(queueOut, [idx |-> cur[self], ok |-> cur[self] \notin fails,
-                                val |-> IF cur[self] \in fails THEN None ELSE Val(cur[self])]);
+                                val |-> IF cur[self] \in fails THEN None ELSE Val(e, cur[self]),
+                                rr |-> cur[self] \in reraise]);
   goto Take;
 end process;
 end algorithm; *)
 \* BEGIN TRANSLATION
-VARIABLES pc, fails, reraise, queueIn, queueOut, ordered, cbLog, nOut, stop, 
-          last, raised, returned, finishLog, startedAt, cur, t, w
+VARIABLES pc, e, nT, fails, reraise, queueIn, queueOut, ordered, cbLog, nOut, 
+          stop, last, raised, returned, exited, closed, finishLog, startedAt, 
+          carried, hist, cur
 
-vars == << pc, fails, reraise, queueIn, queueOut, ordered, cbLog, nOut, stop, 
-           last, raised, returned, finishLog, startedAt, cur, t, w >>
+(* define statement *)
+NW == IF nT < NWorkers THEN nT ELSE NWorkers
+Active == 1..NW
+
+VARIABLES t, w
+
+vars == << pc, e, nT, fails, reraise, queueIn, queueOut, ordered, cbLog, nOut, 
+           stop, last, raised, returned, exited, closed, finishLog, startedAt, 
+           carried, hist, cur, t, w >>
 
 ProcSet == {0} \cup (Workers)
 
 Init == (* Global variables *)
-        /\ fails \in SUBSET Tasks
-        /\ reraise \in SUBSET fails
+        /\ e = 0
+        /\ nT = 0
+        /\ fails = {}
+        /\ reraise = {}
         /\ queueIn = <<>>
         /\ queueOut = <<>>
-        /\ ordered = [i \in Tasks |-> None]
+        /\ ordered = <<>>
         /\ cbLog = <<>>
         /\ nOut = 0
         /\ stop = FALSE
         /\ last = NoItem
         /\ raised = FALSE
         /\ returned = FALSE
+        /\ exited = [x \in Workers |-> FALSE]
+        /\ closed = FALSE
         /\ finishLog = <<>>
         /\ startedAt = <<>>
+        /\ carried = <<>>
+        /\ hist = <<>>
         /\ cur = [x \in Workers |-> 0]
         (* Process Main *)
         /\ t = 1
         /\ w = 1
-        /\ pc = [self \in ProcSet |-> CASE self = 0 -> "Fill"
+        /\ pc = [self \in ProcSet |-> CASE self = 0 -> "Start"
                                         [] self \in Workers -> "Take"]
 
+Start == /\ pc[0] = "Start"
+         /\ IF e < NExec
+               THEN /\ e' = e + 1
+                    /\ \E n \in TaskCounts:
+                         \E f \in SUBSET (1..n):
+                           \E r \in SUBSET f:
+                             /\ nT' = n
+                             /\ fails' = f
+                             /\ reraise' = r
+                             /\ ordered' = [i \in 1..n |-> None]
+                    /\ cbLog' = <<>>
+                    /\ nOut' = 0
+                    /\ stop' = FALSE
+                    /\ last' = NoItem
+                    /\ raised' = FALSE
+                    /\ returned' = FALSE
+                    /\ finishLog' = <<>>
+                    /\ startedAt' = <<>>
+                    /\ t' = 1
+                    /\ w' = 1
+                    /\ exited' = [x \in Workers |-> FALSE]
+                    /\ IF ~PersistQueues
+                          THEN /\ queueIn' = <<>>
+                               /\ queueOut' = <<>>
+                          ELSE /\ TRUE
+                               /\ UNCHANGED << queueIn, queueOut >>
+                    /\ carried' = queueOut'
+                    /\ pc' = [pc EXCEPT ![0] = "Fill"]
+               ELSE /\ pc' = [pc EXCEPT ![0] = "Close"]
+                    /\ UNCHANGED << e, nT, fails, reraise, queueIn, queueOut, 
+                                    ordered, cbLog, nOut, stop, last, raised, 
+                                    returned, exited, finishLog, startedAt, 
+                                    carried, t, w >>
+         /\ UNCHANGED << closed, hist, cur >>
+
 Fill == /\ pc[0] = "Fill"
-        /\ IF t <= NTasks
+        /\ IF t <= nT
               THEN /\ queueIn' = Append(queueIn, t)
                    /\ t' = t + 1
                    /\ pc' = [pc EXCEPT ![0] = "Fill"]
               ELSE /\ pc' = [pc EXCEPT ![0] = "Collect"]
                    /\ UNCHANGED << queueIn, t >>
-        /\ UNCHANGED << fails, reraise, queueOut, ordered, cbLog, nOut, stop, 
-                        last, raised, returned, finishLog, startedAt, cur, w >>
+        /\ UNCHANGED << e, nT, fails, reraise, queueOut, ordered, cbLog, nOut, 
+                        stop, last, raised, returned, exited, closed, 
+                        finishLog, startedAt, carried, hist, cur, w >>
 
 Collect == /\ pc[0] = "Collect"
-           /\ IF nOut # NTasks /\ ~stop
+           /\ IF nOut # nT /\ ~stop
                  THEN /\ queueOut # <<>>
                       /\ last' = Head(queueOut)
                       /\ queueOut' = Tail(queueOut)
@@ -137,7 +239,7 @@ Collect == /\ pc[0] = "Collect"
                             THEN /\ ordered' = [ordered EXCEPT ![last'.idx] = last'.val]
                                  /\ cbLog' = Append(cbLog, <<last'.idx, last'.val>>)
                                  /\ stop' = stop
-                            ELSE /\ IF last'.idx \in reraise
+                            ELSE /\ IF last'.rr
                                        THEN /\ stop' = TRUE
                                        ELSE /\ TRUE
                                             /\ stop' = stop
@@ -147,8 +249,9 @@ Collect == /\ pc[0] = "Collect"
                  ELSE /\ pc' = [pc EXCEPT ![0] = "Sentinels"]
                       /\ UNCHANGED << queueOut, ordered, cbLog, nOut, stop, 
                                       last >>
-           /\ UNCHANGED << fails, reraise, queueIn, raised, returned, 
-                           finishLog, startedAt, cur, t, w >>
+           /\ UNCHANGED << e, nT, fails, reraise, queueIn, raised, returned, 
+                           exited, closed, finishLog, startedAt, carried, hist, 
+                           cur, t, w >>
 
 Sentinels == /\ pc[0] = "Sentinels"
              /\ IF w <= NW
@@ -157,55 +260,76 @@ Sentinels == /\ pc[0] = "Sentinels"
                         /\ pc' = [pc EXCEPT ![0] = "Sentinels"]
                    ELSE /\ pc' = [pc EXCEPT ![0] = "Join"]
                         /\ UNCHANGED << queueIn, w >>
-             /\ UNCHANGED << fails, reraise, queueOut, ordered, cbLog, nOut, 
-                             stop, last, raised, returned, finishLog, 
-                             startedAt, cur, t >>
+             /\ UNCHANGED << e, nT, fails, reraise, queueOut, ordered, cbLog, 
+                             nOut, stop, last, raised, returned, exited, 
+                             closed, finishLog, startedAt, carried, hist, cur, 
+                             t >>
 
 Join == /\ pc[0] = "Join"
-        /\ \A x \in Workers : pc[x] = "Done"
+        /\ \A x \in Active : exited[x]
         /\ pc' = [pc EXCEPT ![0] = "Raise"]
-        /\ UNCHANGED << fails, reraise, queueIn, queueOut, ordered, cbLog, 
-                        nOut, stop, last, raised, returned, finishLog, 
-                        startedAt, cur, t, w >>
+        /\ UNCHANGED << e, nT, fails, reraise, queueIn, queueOut, ordered, 
+                        cbLog, nOut, stop, last, raised, returned, exited, 
+                        closed, finishLog, startedAt, carried, hist, cur, t, w >>
 
 Raise == /\ pc[0] = "Raise"
-         /\ IF last.idx # 0 /\ ~last.ok /\ last.idx \in reraise
+         /\ IF ~last.ok /\ last.rr
                THEN /\ raised' = TRUE
                     /\ UNCHANGED returned
                ELSE /\ returned' = TRUE
                     /\ UNCHANGED raised
-         /\ pc' = [pc EXCEPT ![0] = "Done"]
-         /\ UNCHANGED << fails, reraise, queueIn, queueOut, ordered, cbLog, 
-                         nOut, stop, last, finishLog, startedAt, cur, t, w >>
+         /\ hist' = Append(hist, [n |-> nT, fails |-> fails, reraise |-> reraise, flog |-> finishLog,
+                                  started |-> startedAt, ordered |-> ordered, cb |-> cbLog,
+                                  raised |-> (~last.ok /\ last.rr), who |-> last.idx,
+                                  left |-> Len(queueOut), carried |-> Len(carried)])
+         /\ pc' = [pc EXCEPT ![0] = "Start"]
+         /\ UNCHANGED << e, nT, fails, reraise, queueIn, queueOut, ordered, 
+                         cbLog, nOut, stop, last, exited, closed, finishLog, 
+                         startedAt, carried, cur, t, w >>
 
-Main == Fill \/ Collect \/ Sentinels \/ Join \/ Raise
+Close == /\ pc[0] = "Close"
+         /\ closed' = TRUE
+         /\ pc' = [pc EXCEPT ![0] = "Done"]
+         /\ UNCHANGED << e, nT, fails, reraise, queueIn, queueOut, ordered, 
+                         cbLog, nOut, stop, last, raised, returned, exited, 
+                         finishLog, startedAt, carried, hist, cur, t, w >>
+
+Main == Start \/ Fill \/ Collect \/ Sentinels \/ Join \/ Raise \/ Close
 
 Take(self) == /\ pc[self] = "Take"
-              /\ queueIn # <<>>
-              /\ cur' = [cur EXCEPT ![self] = Head(queueIn)]
-              /\ queueIn' = Tail(queueIn)
-              /\ IF cur'[self] = 0
+              /\ closed \/ (queueIn # <<>> /\ self \in Active /\ ~exited[self])
+              /\ IF closed
                     THEN /\ pc' = [pc EXCEPT ![self] = "Done"]
-                    ELSE /\ pc' = [pc EXCEPT ![self] = "Run"]
-              /\ UNCHANGED << fails, reraise, queueOut, ordered, cbLog, nOut, 
-                              stop, last, raised, returned, finishLog, 
-                              startedAt, t, w >>
+                         /\ UNCHANGED << queueIn, exited, cur >>
+                    ELSE /\ cur' = [cur EXCEPT ![self] = Head(queueIn)]
+                         /\ queueIn' = Tail(queueIn)
+                         /\ IF cur'[self] = 0
+                               THEN /\ exited' = [exited EXCEPT ![self] = TRUE]
+                                    /\ pc' = [pc EXCEPT ![self] = "Take"]
+                               ELSE /\ pc' = [pc EXCEPT ![self] = "Run"]
+                                    /\ UNCHANGED exited
+              /\ UNCHANGED << e, nT, fails, reraise, queueOut, ordered, cbLog, 
+                              nOut, stop, last, raised, returned, closed, 
+                              finishLog, startedAt, carried, hist, t, w >>
 
 Run(self) == /\ pc[self] = "Run"
              /\ TRUE
              /\ pc' = [pc EXCEPT ![self] = "Finish"]
-             /\ UNCHANGED << fails, reraise, queueIn, queueOut, ordered, cbLog, 
-                             nOut, stop, last, raised, returned, finishLog, 
-                             startedAt, cur, t, w >>
+             /\ UNCHANGED << e, nT, fails, reraise, queueIn, queueOut, ordered, 
+                             cbLog, nOut, stop, last, raised, returned, exited, 
+                             closed, finishLog, startedAt, carried, hist, cur, 
+                             t, w >>
 
 Finish(self) == /\ pc[self] = "Finish"
                 /\ startedAt' = Append(startedAt, {cur[x] : x \in {y \in Workers : pc[y] = "Finish"}})
                 /\ finishLog' = Append(finishLog, cur[self])
                 /\ queueOut' = Append(queueOut, [idx |-> cur[self], ok |-> cur[self] \notin fails,
-                                                 val |-> IF cur[self] \in fails THEN None ELSE Val(cur[self])])
+                                                 val |-> IF cur[self] \in fails THEN None ELSE Val(e, cur[self]),
+                                                 rr |-> cur[self] \in reraise])
                 /\ pc' = [pc EXCEPT ![self] = "Take"]
-                /\ UNCHANGED << fails, reraise, queueIn, ordered, cbLog, nOut, 
-                                stop, last, raised, returned, cur, t, w >>
+                /\ UNCHANGED << e, nT, fails, reraise, queueIn, ordered, cbLog, 
+                                nOut, stop, last, raised, returned, exited, 
+                                closed, carried, hist, cur, t, w >>
 
 Worker(self) == Take(self) \/ Run(self) \/ Finish(self)
 
@@ -225,26 +349,43 @@ Termination == <>(\A self \in ProcSet: pc[self] = "Done")
 \* END TRANSLATION
 
 Terminated == \A p \in {0} \cup Workers : pc[p] = "Done"
+ExecEnded == raised \/ returned
 
-\* ---- C13 safety clauses ----
+\* ---- C13 safety clauses (they constrain EVERY execution on the object) ----
 \* results positionally matched; failures leave None in their own slot only
 Positional == returned =>
-   /\ \A i \in Tasks : ordered[i] = (IF i \in fails THEN None ELSE Val(i))
-   /\ Len(cbLog) = NTasks - Cardinality(fails)
-SlotIsolation == \A i \in Tasks : ordered[i] \in {None, Val(i)}
-CallbackMatches == \A k \in 1..Len(cbLog) : cbLog[k][1] \notin fails /\ cbLog[k][2] = Val(cbLog[k][1])
+   /\ Len(ordered) = nT
+   /\ \A i \in 1..nT : ordered[i] = (IF i \in fails THEN None ELSE Val(e, i))
+   /\ Len(cbLog) = nT - Cardinality(fails)
+SlotIsolation == \A i \in DOMAIN ordered : ordered[i] \in {None, Val(e, i)}
+CallbackMatches == \A k \in 1..Len(cbLog) :
+   cbLog[k][1] \in (1..nT) \ fails /\ cbLog[k][2] = Val(e, cbLog[k][1])
 CallbackOnce == \A k, l \in 1..Len(cbLog) : cbLog[k][1] = cbLog[l][1] => k = l
-CallbackAll == returned => \A i \in Tasks \ fails : \E k \in 1..Len(cbLog) : cbLog[k][1] = i
+CallbackAll == returned => \A i \in (1..nT) \ fails : \E k \in 1..Len(cbLog) : cbLog[k][1] = i
 \* every task is run exactly once, also on the early-stop path (workers drain the queue)
 RunOnce == /\ \A k, l \in 1..Len(finishLog) : finishLog[k] = finishLog[l] => k = l
-           /\ (Terminated => Len(finishLog) = NTasks)
+           /\ (ExecEnded => Len(finishLog) = nT)
 \* an exception is re-raised iff a collected failure is of a re-raised type
-RaiseIff == Terminated => (raised <=> stop)
-ReturnXorRaise == Terminated => (raised # returned)
+RaiseIff == ExecEnded => (raised <=> stop)
+ReturnXorRaise == ~(raised /\ returned)
 NoLostResult == Len(finishLog) = nOut + Len(queueOut)
+\* execution k does not depend on execution k-1: it starts from the state a new object starts from,
+\* and the outcome recorded for it is the one of a first execution with the same tasks
+ExecutionsIndependent ==
+   /\ (pc[0] = "Fill" /\ t = 1) => (queueIn = <<>> /\ queueOut = <<>>)
+   /\ \A k \in 1..Len(hist) :
+        /\ hist[k].carried = 0
+        /\ hist[k].raised <=> (\E j \in 1..Len(hist[k].flog) : hist[k].flog[j] \in hist[k].reraise)
+        /\ ~hist[k].raised =>
+             hist[k].ordered = [i \in 1..hist[k].n |-> IF i \in hist[k].fails THEN None ELSE Val(k, i)]
+        /\ \A c \in 1..Len(hist[k].cb) :
+             /\ hist[k].cb[c][1] \in (1..hist[k].n) \ hist[k].fails
+             /\ hist[k].cb[c][2] = Val(k, hist[k].cb[c][1])
 Liveness == <>Terminated
 
 \* observation variables are not part of the state for exhaustive safety checking
-View == <<fails, reraise, queueIn, queueOut, ordered, cbLog, nOut, stop, last, raised, returned, pc, t, w, cur>>
-Orders == Terminated => PrintT(<<"ORDER", fails, reraise, finishLog, startedAt, ordered, cbLog, raised>>)
+View == <<e, nT, fails, reraise, queueIn, queueOut, ordered, cbLog, nOut, stop, last, raised, returned,
+          exited, closed, pc, t, w, cur>>
+\* printed once per behaviour: when Main leaves its last execution (the workers are blocked until Close)
+Orders == pc[0] = "Close" => PrintT(<<"HIST", hist>>)
 =============================================================================
